@@ -519,6 +519,172 @@ func lateStarterScenario(r *rng, viol func(clause, sig, detail string)) *simResu
 		desc: map[string]any{"scenario": "late starter with queued messages", "nodes": n, "powers": pw, "byzantine": byz, "late": late, "votes": len(g.votes), "max_round": g.maxRound(), "all_decided": decided}}
 }
 
+// late starter after a MULTI-ROUND history: four of five equal members go through several rounds without the fifth (their
+// PREPAREs are split 2-2 for a while, as in splitRoundsScenario), then decide; everything they sent has been handed to the
+// fifth participant before it starts (its queue holds QUALITY, several rounds of CONVERGE/PREPARE/COMMIT and the DECIDE of
+// every peer).  The peers have terminated and will not send again: once started, the latecomer must decide from what it
+// was given -- no message was lost and the network is timely.
+func lateStarterRoundsScenario(r *rng, viol func(clause, sig, detail string)) *simResult {
+	n := 5
+	powers := []int64{10, 10, 10, 10, 10}
+	in := mkChain("lr", 1+r.intn(3))
+	inputs := []*gpbft.ECChain{in, in, in, in, in}
+	delta := time.Duration(1+r.intn(2)) * time.Second
+	cfg := gnetCfg{n: n, powers: powers, byz: make([]bool, n), inputs: inputs, delta: delta}
+	g := newGnet(r, cfg, viol)
+	perm := shuffled(r, n)
+	late := perm[4]
+	half := map[int]bool{perm[0]: true, perm[1]: true}
+	g.slow = func(from, to int, msg *gpbft.GMessage) bool {
+		if to == late {
+			return false
+		}
+		switch msg.Vote.Phase {
+		case gpbft.QUALITY_PHASE:
+			return half[to]
+		case gpbft.CONVERGE_PHASE:
+			return half[from] != half[to]
+		}
+		return false
+	}
+	for i := range g.nodes {
+		if i != late {
+			g.start(i)
+		}
+	}
+	target := uint64(2 + r.intn(2))
+	for k := 0; k < 4000; k++ {
+		g.run(10, nil)
+		all := true
+		for i, nd := range g.nodes {
+			if i != late && (nd.decided != nil || nd.p.Progress().Round < target) {
+				all = false
+			}
+		}
+		if all {
+			break
+		}
+	}
+	for _, pm := range g.pool {
+		if pm.ready.After(g.now) {
+			pm.ready = g.now
+		}
+	}
+	g.slow = nil
+	g.stabilised = true
+	g.run(60000, nil) // the four decide; everything addressed to the latecomer is in its participant's queue
+	others := true
+	for i, nd := range g.nodes {
+		if i != late && nd.decided == nil {
+			others = false
+		}
+	}
+	roundAtStab := g.maxRound()
+	g.start(late)
+	decided := g.run(60000, nil)
+	g.checkDecisions()
+	dl := false
+	for _, l := range g.log {
+		if strings.HasPrefix(l, "deadlock") {
+			dl = true
+		}
+	}
+	ln := g.nodes[late]
+	if others && ln.decided == nil {
+		viol("every honest participant that has started the instance decides once the network is timely (messages that arrived before it started are delivered when it starts)",
+			"c06-late-starter-undecided", fmt.Sprintf("participant %d started after the four others had decided in round %d, with everything they sent queued; it is in %+v, undecided", late, roundAtStab, ln.p.Progress().Instant))
+	}
+	return &simResult{g: g, decided: decided, byzVotes: 0, roundAtStab: roundAtStab, deadlock: dl && !decided, budget: !decided && !dl,
+		desc: map[string]any{"scenario": "late starter after a multi-round history of its peers (all of it queued before the start)", "nodes": n, "late": late, "target_round": target,
+			"others_decided": others, "votes": len(g.votes), "max_round": g.maxRound(), "all_decided": decided}}
+}
+
+// failed decision hand-over: the host of one honest participant P fails to accept P's decision (a storage error), while a
+// Byzantine member B (30 % < 1/3) keeps two partitions apart and behaves "honestly" in both of them -- two validly signed,
+// mutually conflicting sets of votes.  Partition 1 = {P, B, three honest members} decides value A (70 %).  Partition 2 =
+// {B, three other honest members whose EC view ends at the base} holds 60 %: without a SECOND set of votes from P it can
+// decide nothing, and once the delayed messages arrive it learns A.  No message between honest participants is lost;
+// every reported decision (accepted by the host or not) must be the same chain.
+func decisionFaultScenario(r *rng, viol func(clause, sig, detail string)) *simResult {
+	n := 8
+	powers := []int64{10, 30, 10, 10, 10, 10, 10, 10}
+	base := mkTipset(0, "base")
+	a := &gpbft.ECChain{TipSets: []*gpbft.TipSet{base, mkTipset(1, "A1")}}
+	b0 := &gpbft.ECChain{TipSets: []*gpbft.TipSet{base}}
+	inputs := []*gpbft.ECChain{a, a, a, a, a, b0, b0, b0}
+	delta := time.Duration(1+r.intn(2)) * time.Second
+	cfg := gnetCfg{n: n, powers: powers, byz: make([]bool, n), inputs: inputs, delta: delta}
+	g := newGnet(r, cfg, viol)
+	b2 := g.addShadow(1, b0)
+	phase2 := false
+	world := func(i int) int {
+		switch {
+		case i == 0:
+			if phase2 {
+				return 2
+			}
+			return 1
+		case i >= 1 && i <= 4:
+			return 1
+		default:
+			return 2
+		}
+	}
+	g.delay = func(from, to int, _ *gpbft.GMessage) (time.Duration, bool) {
+		if world(from) != world(to) {
+			return 1000000 * time.Second, true // held back by the adversary; released below
+		}
+		return 0, false
+	}
+	p := g.nodes[0]
+	p.failDecision = 1
+	for _, i := range []int{0, 1, 2, 3, 4} {
+		g.start(i)
+	}
+	for k := 0; k < 3000; k++ {
+		g.run(10, nil)
+		done := len(p.reported) > 0
+		for _, i := range []int{1, 2, 3, 4} {
+			if g.nodes[i].decided == nil {
+				done = false
+			}
+		}
+		if done {
+			break
+		}
+	}
+	first := len(p.reported) > 0
+	// second partition: the other three honest members and the Byzantine member's second personality start now
+	phase2 = true
+	for _, i := range []int{5, 6, 7, b2} {
+		g.start(i)
+	}
+	g.stopAt = g.now.Add(120 * time.Second)
+	g.run(40000, nil)
+	g.stopAt = time.Time{}
+	// the adversary lets go: everything held back is delivered
+	for _, pm := range g.pool {
+		if pm.ready.After(g.now) {
+			pm.ready = g.now
+		}
+	}
+	g.delay = nil
+	g.stabilised = true
+	g.run(60000, nil)
+	g.nodes[1].honest = false
+	g.nodes[b2].honest = false
+	g.checkDecisions()
+	var rep []string
+	for _, nd := range g.nodes {
+		for _, d := range nd.reported {
+			rep = append(rep, fmt.Sprintf("node%d:%s", nd.idx, d.Vote.Value))
+		}
+	}
+	return &simResult{g: g, decided: true, byzVotes: 1, roundAtStab: g.maxRound(),
+		desc: map[string]any{"scenario": "failed decision hand-over at one honest participant + a Byzantine member (30 %) voting in two partitions", "first_partition_decided": first,
+			"reported": rep, "votes": len(g.votes), "max_round": g.maxRound()}}
+}
+
 // byte-scale storage powers (hundreds to thousands of TiB, as on mainnet): the 16-bit scaled powers that every quorum tally
 // uses are derived from them; no Byzantine member, honest inputs fork, random delays, then a timely phase.  Agreement and
 // the sanity of the scaled table (0 <= scaled power, sum <= 0xffff, order preserved) are monitored.
@@ -965,6 +1131,8 @@ func runSpecSim(o *out, r *rng, thorough bool, pid string) {
 		var res *simResult
 		if i%8 == 3 {
 			res = signatureReplayScenario(r, viol)
+		} else if i%12 == 1 {
+			res = decisionFaultScenario(r, viol)
 		} else if i%6 == 5 {
 			res = splitBrainScenario(r, viol)
 		} else if i%12 == 4 {
